@@ -196,7 +196,7 @@ class C03(Check):
             'included) x both chunk-size conventions. Sub-space "meta": all sequences of <=3 (quick) / <=4 (thorough) '
             'metadata/log blocks over 7 kinds (dyld modules, trace codes, processes, kexts, images, log events, unknown tag) '
             'with occurrence-numbered payloads, the string index placed at every position, x thread maps (4) x gap bytes after '
-            'MORE_EVENTS (4). Sub-space "blocks": every filler length 362..531, 3946..4115, 8042..8211 before the stackshot sentinel, before the thread-map tag and after MORE_EVENTS (a tag at / across every 512/4096/8192-byte block boundary). Sub-space "gapraw": the next events tag 0..80 bytes after a MORE_EVENTS tag, in every chunking of 3 records. Sub-space "tagged": records whose first bytes are container tags / the v3 magic, in every position and chunking. Sub-space "order": records with equal and decreasing timestamps in every order and chunking stay in file order. Sub-space "cli": the processes / kexts / images commands print the sections as JSON. Sub-space "long": 2^k-1, 2^k, 2^k+1 records (k = 6..12) in 1..3 chunks; 2^k-1..2^k+1 chunks (k = 6..11) of one record; dumps that begin 1..4100 bytes into the stream. Every section is read twice and must not change. An embedded code table cut into 2..5 blocks inside its multi-byte characters. Sub-space "reuse": ONE parser object parses '
+            'MORE_EVENTS (4). Sub-space "blocks": every filler length 362..531, 3946..4115, 8042..8211 before the stackshot sentinel, before the thread-map tag and after MORE_EVENTS (a tag at / across every 512/4096/8192-byte block boundary). Sub-space "gapraw": the next events tag 0..80 bytes after a MORE_EVENTS tag, in every chunking of 3 records. Sub-space "tagged": records whose first bytes are container tags / the v3 magic, in every position and chunking. Sub-space "order": records with equal and decreasing timestamps in every order and chunking stay in file order. Sub-space "cli": the processes / kexts / images commands print the sections as JSON. Sub-space "long": 2^k-1, 2^k, 2^k+1 records (k = 6..12) in 1..3 chunks; 2^k-1..2^k+1 chunks (k = 6..11) of one record; dumps that begin 1..4100 bytes into the stream. Every section is read twice and must not change. An embedded code table cut into 2..5 blocks inside its multi-byte characters. Log blocks whose plist stores a time-zone / date dict, a backtrace frame or a whole record once and refers to it several times. Sub-space "reuse": ONE parser object parses '
             'two dumps in turn (6 x 6 block sequences x 3 map pairs); the second parse must leave the second dump\'s metadata only. Oracle: events all/in order/== independent decode/before any log; tables after the thread-map '
             'chunk and after logs; list-valued sections concatenated in file order; scalar sections equal one of their '
             'payloads; logs in order with strings resolved. non-trivial = >=2 chunks or >=2 blocks. states = distinct '
@@ -272,6 +272,32 @@ class C03(Check):
                     acc.case(nontrivial=True, transitions=len(parts) + 1, state=h64(('codes-split', cuts)), outcome=h64(('codes-split', cuts)))
                     if got != text.decode('utf-8'):
                         acc.violation('v3-trace-codes:character-split-between-blocks', {'kind': 'long', 'cuts': list(cuts), 'pad': pad}, {'got': repr(got)[:200]})
+            # log blocks whose plist stores an object ONCE and refers to it several times (the reader hands out one Python object per
+            # stored object): one time-zone / date dict shared by all records and within a record; a whole record listed twice
+            tz, ud = {'mw': -60, 'dt': 1}, {'sec': 1600000000, 'usec': 250000}
+
+            def rec_(i, **kw):
+                e = {'cm': 1, 't': 'logEvent', 's': 10 + i, 'tid': 100 + i, 'ns': 5, 'mct': 6 + i, 'b': b'B' * 16, 'piu': b'P' * 16, 'ud': ud, 'utz': tz, 'p': 0, 'pid': 40 + i}
+                e.update(kw)
+                return e
+            r0 = rec_(0)
+            frame = {'iu': b'U' * 16, 'io': 5}
+            variants = {'zone-and-date-shared-by-all-records': [rec_(0), rec_(1), rec_(2)],
+                        'zone-shared-within-a-record': [rec_(0, lsutz=tz, leutz=tz, lsud=ud, leud=ud, lsmct=1, lemct=2, lc={'c': 3, 's': True}), rec_(1, lsutz=tz)],
+                        'backtrace-frame-listed-twice': [rec_(0, bt=[frame, frame]), rec_(1, bt=[frame])],
+                        'record-listed-twice': [r0, rec_(1), r0]}
+            for label, evs in variants.items():
+                blocks = [B.v3_block(B.TAG_LOG_STRINGS, B.bplist({'StringIndex': STRINGS})), B.v3_block(B.TAG_LOG_EVENTS, B.bplist({'Events': evs}))]
+                p = KdBufParser({}, {})
+                try:
+                    out = [x for x in p.parse(io.BytesIO(B.v3(THREADMAPS[0], [RECS[:1]], blocks))) if isinstance(x, OsLogEvent)]
+                    got = [(x.size, x.thread_identifier, x.unix_timezone, x.unix_date.timestamp()) for x in out]
+                except Exception as ex:
+                    got = 'RAISED ' + type(ex).__name__ + ' ' + str(ex)[:60]
+                exp = [(e['s'], e['tid'], {'minutes_west': -60, 'dst_time': 1}, 1600000000.25) for e in evs]
+                acc.case(nontrivial=True, transitions=len(evs) + 1, state=h64(('shared', label)), outcome=h64(('shared', label)))
+                if got != exp:
+                    acc.violation('v3-logs:objects-stored-once-and-referred-to-twice', {'kind': 'long', 'variant': label}, {'got': repr(got)[:300], 'expected_n': len(exp)})
             # the dump does not begin at stream position 0
             for off in (1, 7, 8, 9, 64, 0x100, 0x120, 0x123, 4091, 4096, 4100):
                 for comp in ((3,), (1, 2), (1, 0, 2)):
@@ -311,6 +337,8 @@ class C03(Check):
                         chunks.append(recs[i:i + c])
                         i += c
                     fill = bytes((i * 7 + 1) % 251 + 1 for i in range(L))
+                    if L > 74:
+                        fill = fill[:8] + ET[:L - 74]      # the last six lengths: the filler ends with the first 1..6 bytes of the events tag
                     blob = B.v3(threads=THREADMAPS[0], chunks=chunks, blocks=[blk('codes', 0)], gap=fill, more_word=b'')
                     bad = judge(blob, THREADMAPS[0], recs, ['codes'], None)
                     acc.case(nontrivial=True, transitions=4, state=h64(('gapraw', L, comp)), outcome=h64(('gapraw', L % 8)))
